@@ -1,6 +1,7 @@
 package main
 
 import (
+	"sync"
 	"os"
 	"runtime/debug"
 	"context"
@@ -34,6 +35,18 @@ type PathData struct {
 type World struct {
 	Paths []*PathData
 	Dec   *decoder.Decoder
+	// what the "echo" completion hook was last called with
+	HookCalls []HookCall
+	hookMu    sync.Mutex
+}
+
+type HookCall struct {
+	Prefix   string
+	Pos      hcl.Pos
+	PosOk    bool
+	Filename string
+	Max      uint
+	Path     lang.Path
 }
 
 type reader struct{ w *World }
@@ -85,6 +98,32 @@ func newWorld() *World {
 	dc.CompletionHooks["hook1"] = func(ctx context.Context, value cty.Value) ([]decoder.Candidate, error) {
 		return []decoder.Candidate{{Label: "hooked", Kind: lang.StringCandidateKind, RawInsertText: `"hooked"`}}, nil
 	}
+	// hooks returning many candidates: "many60" -> 60, "many99" -> 99, "many1" -> 1
+	for _, n := range []int{1, 30, 60, 99} {
+		n := n
+		dc.CompletionHooks[fmt.Sprintf("many%d", n)] = func(ctx context.Context, value cty.Value) ([]decoder.Candidate, error) {
+			out := make([]decoder.Candidate, n)
+			for i := range out {
+				out[i] = decoder.Candidate{Label: fmt.Sprintf("hooked-%03d", i), Kind: lang.StringCandidateKind, RawInsertText: fmt.Sprintf("\"h%03d\"", i)}
+			}
+			return out, nil
+		}
+	}
+	// "echo": one candidate naming the text the hook was handed; the call is recorded
+	dc.CompletionHooks["echo"] = func(ctx context.Context, value cty.Value) ([]decoder.Candidate, error) {
+		hc := HookCall{}
+		if value.Type() == cty.String && value.IsKnown() && !value.IsNull() {
+			hc.Prefix = value.AsString()
+		}
+		hc.Pos, hc.PosOk = decoder.PosFromContext(ctx)
+		hc.Filename, _ = decoder.FilenameFromContext(ctx)
+		hc.Max, _ = decoder.MaxCandidatesFromContext(ctx)
+		hc.Path, _ = decoder.PathFromContext(ctx)
+		w.hookMu.Lock()
+		w.HookCalls = append(w.HookCalls, hc)
+		w.hookMu.Unlock()
+		return []decoder.Candidate{{Label: "echo:" + hc.Prefix, Kind: lang.StringCandidateKind, RawInsertText: fmt.Sprintf("%q", hc.Prefix+"-done")}}, nil
+	}
 	w.Dec.SetContext(dc)
 	return w
 }
@@ -105,6 +144,8 @@ func (w *World) AddPath(path string, sch *schema.BodySchema, files map[string]st
 }
 
 // Collect fills the path contexts with collected targets/origins (as a language server does).
+var collectCount int
+
 type CollectRes struct {
 	P *PathData
 	R QResult
@@ -125,8 +166,14 @@ func (w *World) Collect() []CollectRes {
 			return d.CollectReferenceTargets()
 		})
 		out = append(out, CollectRes{p, rt})
+		// every other collection is stored the way a language server's state store would: as a copy
+		collectCount++
+		asCopy := collectCount%2 == 0
 		if t, ok := rt.Val.(reference.Targets); ok && rt.Panic == "" {
 			p.Ctx.ReferenceTargets = t
+			if asCopy {
+				p.Ctx.ReferenceTargets = t.Copy()
+			}
 		}
 		ro := safeCall("CollectReferenceOrigins", func() (interface{}, error) {
 			d, err := w.Dec.Path(p.Path)
@@ -138,6 +185,9 @@ func (w *World) Collect() []CollectRes {
 		out = append(out, CollectRes{p, ro})
 		if o, ok := ro.Val.(reference.Origins); ok && ro.Panic == "" {
 			p.Ctx.ReferenceOrigins = o
+			if asCopy {
+				p.Ctx.ReferenceOrigins = o.Copy()
+			}
 		}
 	}
 	return out
